@@ -46,7 +46,7 @@ fn fmt_f64(x: f64, tr: u64, plus: bool, prec: Option<usize>) -> String {
 fn value_for_text(ctx: &mut Ctx) -> Dd {
     let c = ctx.weighted(&[6, 2, 2]);
     match c {
-        0 => dd_exp(ctx, -1022, 1023, true),
+        0 => dd_all(ctx),
         1 => dd_exp(ctx, -20, 70, true), // plain decimals without exponent
         _ => {
             // extreme exponents: long decimal expansions
@@ -209,7 +209,7 @@ mod positional {
 }
 
 fn c20_serde_roundtrip(ctx: &mut Ctx) {
-    let x = dd_exp(ctx, -1022, 1023, true);
+    let x = dd_all(ctx);
     x.key(ctx);
     note_dd(ctx, "x", x);
     let t = x.tf();
@@ -327,6 +327,66 @@ fn c20_serde_arbitrary(ctx: &mut Ctx) {
             Err(e) => check!(ctx, !want, "deserialising the valid pair ({}, {}) as {name} failed: {e}", showf(hi), showf(lo)),
         }
     }
+    // the in-place entry point (`Deserialize::deserialize_in_place`, used by serde when a Vec, an
+    // array, an Option or a tuple is refilled): the destination starts as a valid value and must be
+    // a valid value afterwards, whether the call succeeds or not; on success it carries the words
+    {
+        let start = TwoFloat::from(0.75);
+        let shapes: Vec<(&str, Box<dyn Fn(&mut TwoFloat) -> Result<(), DeError>>)> = vec![
+            ("seq", Box::new(move |p: &mut TwoFloat| {
+                let d: SeqDeserializer<_, DeError> = SeqDeserializer::new(vec![hi, lo].into_iter());
+                serde::Deserialize::deserialize_in_place(d, p)
+            })),
+            ("map hi,lo", Box::new(move |p: &mut TwoFloat| {
+                let d: MapDeserializer<_, DeError> = MapDeserializer::new(vec![("hi", hi), ("lo", lo)].into_iter());
+                serde::Deserialize::deserialize_in_place(d, p)
+            })),
+            ("map lo,hi", Box::new(move |p: &mut TwoFloat| {
+                let d: MapDeserializer<_, DeError> = MapDeserializer::new(vec![("lo", lo), ("hi", hi)].into_iter());
+                serde::Deserialize::deserialize_in_place(d, p)
+            })),
+            ("one-element seq", Box::new(move |p: &mut TwoFloat| {
+                let d: SeqDeserializer<_, DeError> = SeqDeserializer::new(vec![hi].into_iter());
+                serde::Deserialize::deserialize_in_place(d, p)
+            })),
+            ("map with duplicate lo", Box::new(move |p: &mut TwoFloat| {
+                let d: MapDeserializer<_, DeError> = MapDeserializer::new(vec![("hi", hi), ("lo", lo), ("lo", 0.0)].into_iter());
+                serde::Deserialize::deserialize_in_place(d, p)
+            })),
+        ];
+        for (name, f) in shapes.iter() {
+            let mut place = start;
+            match guard(|| f(&mut place)) {
+                Err(m) => ctx.fail(format!("deserialize_in_place ({name}) of ({}, {}) panicked: {m}", showf(hi), showf(lo))),
+                Ok(r) => {
+                    let d = Dd::of(place);
+                    check!(ctx, d.valid(), "deserialize_in_place ({name}) of ({}, {}) returned {} and left the destination holding the invalid {}", showf(hi), showf(lo), if r.is_ok() { "Ok" } else { "an error" }, d.show());
+                    if r.is_ok() {
+                        check!(ctx, want && !name.contains("one-element") && !name.contains("duplicate"), "deserialize_in_place ({name}) accepted ({}, {})", showf(hi), showf(lo));
+                        check!(ctx, d.hi.to_bits() == hi.to_bits() && d.lo.to_bits() == lo.to_bits(), "deserialize_in_place ({name}) of ({}, {}) stored {}", showf(hi), showf(lo), d.show());
+                    } else if *name == "seq" || name.starts_with("map hi") || name.starts_with("map lo") {
+                        check!(ctx, !want, "deserialize_in_place ({name}) refused the valid pair ({}, {})", showf(hi), showf(lo));
+                    }
+                }
+            }
+        }
+    }
+    // Num::from_str_radix on the text the crate itself would print for these words ("<hi> + <|lo|>"):
+    // whatever it answers (it refuses everything today), it must not hand out an invalid value
+    {
+        let sign = if lo.is_sign_negative() { '-' } else { '+' };
+        for text in [format!("{} {} {}", hi, sign, lo.abs()), format!("{:e} {} {:e}", hi, sign, lo.abs())] {
+            match guard(|| <TwoFloat as num_traits::Num>::from_str_radix(&text, 10)) {
+                Err(m) => ctx.fail(format!("from_str_radix({text:?}) panicked: {m}")),
+                Ok(Ok(t)) => {
+                    let d = Dd::of(t);
+                    check!(ctx, d.valid(), "Num::from_str_radix({text:?}, 10) returned the invalid TwoFloat {}", d.show());
+                    check!(ctx, want, "Num::from_str_radix({text:?}, 10) accepted the words of an overlapping / non-finite pair as {}", d.show());
+                }
+                Ok(Err(_)) => {}
+            }
+        }
+    }
     // JSON text for finite words
     if hi.is_finite() && lo.is_finite() {
         let text = format!("{{\"hi\":{:e},\"lo\":{:e}}}", hi, lo);
@@ -345,7 +405,7 @@ fn c20_serde_arbitrary(ctx: &mut Ctx) {
 
 /// malformed shapes are rejected
 fn c20_serde_malformed(ctx: &mut Ctx) {
-    let x = dd_exp(ctx, -1022, 1023, true);
+    let x = dd_all(ctx);
     let which = ctx.below(9);
     x.key(ctx);
     ctx.key_u64(which);
